@@ -95,6 +95,7 @@ type FuncCtx struct {
 	aliases        map[types.Object]ast.Expr
 	aliasDepth     int
 	allocs         map[string][]string
+	noHeap         int
 	axiomsDone     map[string]bool
 	locked         bool
 	relock         func(env *Env)
@@ -179,6 +180,10 @@ func (f *FuncCtx) typeInv(t string, typ types.Type, depth int) []string {
 		k := f.S.SortOf(u.Key())
 		out = append(out, fmt.Sprintf("(forall ((k!q %s)) (! (=> (select (m_dom %s) k!q) (>= (m_card %s) 1)) :pattern ((select (m_dom %s) k!q))))", k, t, t, t))
 		out = append(out, fmt.Sprintf("(=> (= (m_card %s) 0) (= (m_dom %s) ((as const (Array %s Bool)) false)))", t, t, k))
+		if kinv := f.typeInv("k!q", u.Key(), depth+1); len(kinv) > 0 {
+			// keys present in a map are values of the key type
+			out = append(out, fmt.Sprintf("(forall ((k!q %s)) (! (=> (select (m_dom %s) k!q) (and %s)) :pattern ((select (m_dom %s) k!q))))", k, t, strings.Join(kinv, " "), t))
+		}
 	case *types.Struct:
 		if srt, st, ok := f.S.isDatatypeStruct(typ); ok {
 			for i := 0; i < st.NumFields(); i++ {
@@ -253,6 +258,9 @@ func (f *FuncCtx) heapName(elem types.Type, field *types.Var) string {
 }
 
 func (f *FuncCtx) heapGet(env *Env, h string) string {
+	if f.noHeap > 0 {
+		f.fail("recursive/opaque spec function bodies cannot read the heap (%s)", h)
+	}
 	if t, ok := env.heap[h]; ok {
 		return t
 	}
@@ -262,6 +270,10 @@ func (f *FuncCtx) heapGet(env *Env, h string) string {
 	hs := f.heapSort[h]
 	t := f.fresh("H0_"+strings.TrimPrefix(h, "H."), fmt.Sprintf("(Array %s %s)", hs[0], hs[1]))
 	f.heap0[h] = t
+	for _, a := range f.allocs[hs[1]] {
+		// the entry heap cannot hold references allocated during the call
+		f.emit(fmt.Sprintf("(assert (forall ((r!f %s)) (! (not (= (select %s r!f) %s)) :pattern ((select %s r!f)))))", hs[0], t, a, t))
+	}
 	return t
 }
 
@@ -368,6 +380,10 @@ func (f *FuncCtx) merge(envs []*Env) *Env {
 			}
 			if v.T != v0.T {
 				same = false
+			}
+			if f.sortOfVal(v) != f.sortOfVal(v0) {
+				all = false // ghost of another loop with a different sort: out of scope after the join
+				break
 			}
 		}
 		if !all {
